@@ -682,6 +682,7 @@ def run_one(tape, only=None):
     res["nontrivial"] = run.state_changes >= 2 and run.selected_ops >= 1
     res["wdigest"] = digest_of(w)
     res["edigest"] = sim.digest()
+    res["trace"] = sim.log[:800]
     res["kinds"] = [f"kind={w['kind']}", f"policy={policy['kind']}",
                     f"end={outcome.get('end')}"]
     res["counters"] = {"steps": sim.steps, "ops": len(w["ops"]),
